@@ -10,6 +10,8 @@
 From Coq Require Import ZArith NArith List Bool.
 From SV Require Import Fmt.VtfPixelExpr Fmt.VtfPixelExprProofs Fmt.VtfLayout Fmt.VtfLayoutProofs.
 From SV Require Import Gen.PixelCodecs_gen Gen.VtfLayout_gen Fmt.VtfGenProofs.
+From SV Require Import Fmt.VtfFrameSM Fmt.VtfFrameSMProofs Gen.VtfFrameSM_gen.
+From SV Require Import Bin.Struct Fmt.VtfContainer Fmt.VtfContainerProofs Gen.VtfContainer_gen.
 Import ListNotations.
 
 (** ** Pixels *)
@@ -149,3 +151,103 @@ Theorem c15_bilinear_is_block_mean : terms_eqb bilinear_terms block_terms = true
     = (src (texel_off sw (2 * x) (2 * y) + ch) + src (texel_off sw (2 * x + 1) (2 * y) + ch)
        + src (texel_off sw (2 * x) (2 * y + 1) + ch) + src (texel_off sw (2 * x + 1) (2 * y + 1) + ch)) / 4.
 Proof. exact gen_bilinear_is_block_mean. Qed.
+
+(** ** Life cycle of a frame: lazily read frames, cleared frames, compute_mipmaps() and save()
+    A [Frame] is a pair (_data, _fileinfo).  The effect of every method of class Frame on the pair is computed from the
+    source by translate/c15_frame.py (abstract interpretation of the method bodies) into tables; the check compares
+    them with [ideal_load], [ideal_rescale] ... in the kernel.  [chaincfg] is what the translator reads from
+    compute_mipmaps(), save() and rescale_from().  [final_chain] is the specification: for every mipmap level of one
+    (frame, depth/side): the file's pixels while the level still has its file source, else its data, else (cleared)
+    blank for level 0 and the scaled pixels WRITTEN for the level above. *)
+Close Scope Z_scope.
+Close Scope N_scope.
+Theorem c15_save_writes_every_level : forall pix fbytes blank decode encode scale t_load t_rescale cfg,
+  efftable_eqb t_load ideal_load = true -> efftable_eqb t_rescale ideal_rescale = true -> chain_ok cfg = true ->
+  forall chain,
+    save_chain pix fbytes blank decode encode scale t_load t_rescale cfg chain
+    = map (fun p => Some (encode p)) (final_chain pix fbytes blank decode scale chain).
+Proof. exact chain_written_gen. Qed.
+
+(** A level that still has its file source is written as the (re-encoded) bytes of the file, whatever else is in the
+    chain (cleared levels, levels regenerated by compute_mipmaps, loaded levels): frames are only regenerated when cleared. *)
+Theorem c15_save_keeps_levels_with_a_file_source : forall pix fbytes blank decode encode scale t_load t_rescale cfg,
+  efftable_eqb t_load ideal_load = true -> efftable_eqb t_rescale ideal_rescale = true -> chain_ok cfg = true ->
+  forall chain m st b, nth_error chain m = Some st -> f_src st = Some b ->
+    nth_error (save_chain pix fbytes blank decode encode scale t_load t_rescale cfg chain) m = Some (Some (encode (decode b))).
+Proof. exact chain_keeps_file_levels_gen. Qed.
+
+(** Composed with the codec theorems: if the file source of a level holds bytes that save() wrote in a format whose
+    codec passes [sf_ok], a lazy read followed by save() writes exactly these bytes again. *)
+Theorem c15_lazy_resave_keeps_bytes : forall c canon, sf_ok c canon = true ->
+  forall t_load t_rescale cfg blank scale,
+  efftable_eqb t_load ideal_load = true -> efftable_eqb t_rescale ideal_rescale = true -> chain_ok cfg = true ->
+  forall chain m st p, nth_error chain m = Some st -> f_src st = Some (enc_frame c p) -> Forall bytes p ->
+  nth_error (save_chain frame_pixels frame_pixels blank (dec_frame c) (enc_frame c) scale t_load t_rescale cfg chain) m
+  = Some (Some (enc_frame c p)).
+Proof. exact lazy_resave_keeps_bytes_gen. Qed.
+
+(** What the user sees through frame[x, y] / load() / to_PIL() ([view]): reading does not change it; rescale_from()
+    does not change it while the frame still has its file source; fill()/copy_from() replace it; __setitem__ edits it. *)
+Theorem c15_view_unchanged_by_load : forall pix fbytes blank decode (st : fstate pix fbytes),
+  view pix fbytes blank decode (load pix fbytes blank decode st) = view pix fbytes blank decode st.
+Proof. exact view_load. Qed.
+Theorem c15_view_rescale_with_source : forall pix fbytes blank decode scaled (st : fstate pix fbytes) b, f_src st = Some b ->
+  view pix fbytes blank decode (rescale pix fbytes scaled st) = decode b.
+Proof. exact view_rescale_with_source. Qed.
+Theorem c15_view_setitem : forall pix fbytes blank decode modf (st : fstate pix fbytes),
+  view pix fbytes blank decode (setitem pix fbytes blank decode modf st) = modf (view pix fbytes blank decode st).
+Proof. exact view_setitem. Qed.
+(** the generated tables, once they pass the comparison, are these operations *)
+Theorem c15_frame_method_is_a_modelled_operation : forall pix fbytes t, like_a_modelled_op t = true ->
+  forall blank decode newd scaled modf (st : fstate pix fbytes),
+    let r := run_table pix fbytes t blank decode newd scaled modf st in
+    r = load pix fbytes blank decode st \/ r = clear pix fbytes st \/ r = set_new pix fbytes newd st
+    \/ r = rescale pix fbytes scaled st \/ r = setitem pix fbytes blank decode modf st \/ r = detach pix fbytes st.
+Proof. exact modelled_op_cases. Qed.
+Example c15_chain_ok_inhabited : chain_ok good_cfg = true
+  /\ toy_save ideal_rescale good_cfg [lazy 1; lazy 2; cleared] = [Some 1; Some 2; Some 102].
+Proof. split; reflexivity. Qed.
+
+(** Defective shapes (toy instance: decode/encode identity, scaling adds 100).
+    rescale_from() forgetting the file source: the stored level 1 (value 2) is written as the average of level 0. *)
+Theorem c15_rescale_drops_source_refuted :
+  efftable_eqb rescale_drops_source ideal_rescale = false
+  /\ toy_save rescale_drops_source good_cfg [lazy 1; lazy 2] = [Some 1; Some 101].
+Proof. exact rescale_drops_source_refuted. Qed.
+(** rescale_from() not loading the larger frame (the tree before the repair): the cleared level 2 below a lazily read
+    level 1 is made from the average of level 0 parked in level 1 (201), not from the stored level 1 (102). *)
+Theorem c15_parent_not_loaded_refuted :
+  chain_ok pinned_cfg = false
+  /\ toy_save ideal_rescale pinned_cfg [lazy 1; lazy 2; cleared] = [Some 1; Some 2; Some 201].
+Proof. exact parent_not_loaded_refuted. Qed.
+
+(** ** The container: header, resource directory, data blocks, frames (vtf.py: VTF.save / VTF.read) and the
+    particle-sheet records.  Every struct.pack / struct.unpack site is regenerated from the source as a [site]
+    (format strings and the ORDER of the fields on both sides); the check discharges [site_ok] for each of them. *)
+Theorem c15_site_roundtrip : forall s, site_ok s = true ->
+  forall vals, fits (fmt_of (w_fmt s)) vals = true ->
+  exists bs, pack (fmt_of (w_fmt s)) vals = Some bs
+             /\ List.length bs = calcsize (fmt_of (r_fmt s))
+             /\ unpack (fmt_of (r_fmt s)) bs = Some vals
+             /\ combine (r_fields s) vals = combine (w_fields s) vals
+             /\ (r_len s = (-1)%Z \/ r_len s = Z.of_nat (List.length bs)).
+Proof. exact site_roundtrip. Qed.
+(** Consecutive blocks behind any prefix are found again at the running offsets: resource data, thumbnail, frames. *)
+Theorem c15_blocks_at_offsets : forall (blocks : list (list N)) (pre post : list N),
+  Forall2 (fun off b => slice (pre ++ List.concat blocks ++ post) off (List.length b) = b)
+          (offsets (List.length pre) (map (@List.length N) blocks)) blocks.
+Proof. exact blocks_at_offsets. Qed.
+(** Frame ordering: reading the frames in the order they were written, with the same sizes, gives every frame its own bytes. *)
+Theorem c15_frames_read_back : forall (frames : list (list N)) (pre : list N),
+  Forall2 (fun off f => slice (pre ++ List.concat frames) off (List.length f) = f)
+          (offsets (List.length pre) (map (@List.length N) frames)) frames.
+Proof. exact frames_read_back. Qed.
+(** A resource stored out of line: [length][data] at the offset recorded in the directory is read back. *)
+Theorem c15_block_read_back : forall F (d pre post blk : list N),
+  wf_fmt (f_len F) = true -> fits (f_len F) [VInt (Z.of_nat (List.length d))] = true ->
+  block F d = Some blk -> read_block F (pre ++ blk ++ post) (List.length pre) = Some d.
+Proof. exact block_read_back. Qed.
+(** Texture coordinates of a particle sheet: four 32-bit float patterns in, the same patterns out. *)
+Theorem c15_tex_roundtrip : forall S t, wf_fmt (s_tex S) = true -> fits (s_tex S) (map VFloat t) = true ->
+  forall pre post, exists bs, pack_tex S t = Some bs /\ read_tex S (pre ++ bs ++ post) (List.length pre) = Some t.
+Proof. exact tex_roundtrip. Qed.
